@@ -19,7 +19,7 @@ HEADER = ("From Coq Require Import List NArith Bool.\nFrom SC Require Import Mod
 CHILD = os.path.join(os.path.dirname(os.path.abspath(__file__)), "k4_child.py")
 PY = sys.executable
 OLD = {"a.json": {"k": 1, "o": {"p": 0}, "old": "x" * 30}, "b.json": {"b": 0}, "c.json": [1, 2]}
-ATOMIC_MODES = ["threading", "nested", "write_concern", "list", "ser_flush", "shm_flush", "obj_flush"]
+ATOMIC_MODES = ["threading", "nested", "write_concern", "list", "ser_flush", "shm_flush", "obj_flush", "reenabled", "reenabled_flush"]
 UNSER_MODES = ["unser_threading", "unser_write_concern", "unser_inplace"]
 
 
